@@ -467,13 +467,26 @@ class EndpointResponseHandlerGenerator:
 
         # Handle other responses (exclude primary only if it was actually processed)
         other_responses = [r for r in op.responses if not (processed_primary_success and r == primary_success_ir)]
+        # A success response declared as the range "2XX" stands for every status 200-299 that has no case of its own:
+        # it is written after the explicit codes
+        other_responses.sort(key=lambda r: r.status_code.upper() == "2XX")
         for resp_ir in other_responses:
-            if resp_ir.status_code.isdigit():
-                status_code_val = int(resp_ir.status_code)
-                writer.write_line(f"case {status_code_val}:")
+            is_success_range = resp_ir.status_code.upper() == "2XX"
+            if resp_ir.status_code.isdigit() or is_success_range:
+                status_code_val = int(resp_ir.status_code) if not is_success_range else 200
+                if is_success_range:
+                    writer.write_line("case success_status if 200 <= success_status <= 299:")
+                else:
+                    writer.write_line(f"case {status_code_val}:")
                 writer.indent()
 
-                if resp_ir.status_code.startswith("2"):
+                if is_success_range and resp_ir == primary_success_ir:
+                    # The range is what the method's return type was derived from
+                    if strategy.return_type == "None":
+                        writer.write_line("return None")
+                    else:
+                        self._write_strategy_based_return(writer, strategy, context)
+                elif resp_ir.status_code.startswith("2"):
                     # Other 2xx success responses - resolve each response individually
                     if not resp_ir.content:
                         writer.write_line("return None")
